@@ -520,8 +520,25 @@ func (authType *ClientAuthType) MarshalJSON() ([]byte, error) {
 	return []byte(`"` + authType.String() + `"`), nil
 }
 
+// UnmarshalJSON reads the name written by MarshalJSON: one of the
+// ClientAuthType constant names, or "ClientAuthType(n)" for other values.
 func (authType *ClientAuthType) UnmarshalJSON(b []byte) error {
-	panic("unimplemented")
+	var s string
+	if err := json.Unmarshal(b, &s); err != nil {
+		return err
+	}
+	for i := NoClientCert; i <= RequireAndVerifyClientCert; i++ {
+		if i.String() == s {
+			*authType = i
+			return nil
+		}
+	}
+	var n int64
+	if _, err := fmt.Sscanf(s, "ClientAuthType(%d)", &n); err != nil || ClientAuthType(n).String() != s {
+		return fmt.Errorf("tls: unknown client auth type %q", s)
+	}
+	*authType = ClientAuthType(n)
+	return nil
 }
 
 // requiresClientCert reports whether the ClientAuthType requires a client
